@@ -22,7 +22,7 @@ ASSUMPTIONS = ['floor-based integer bin arithmetic is the specification: window 
                'a bin is "inside the contig" when start>=0 and end<=contig length (the documented --keepOverBounds rule)']
 MIN_NONTRIVIAL = {'quick': 2000, 'thorough': 50000}
 REQUIRED_MONITORS = ['call:bamToCountTable.coordinate_to_bins', 'call:utils.binning.coordinate_to_bins',
-                     'hook:coordinate_to_bins_during_table', 'table:cells_compared']
+                     'hook:coordinate_to_bins_during_table', 'table:cells_compared', 'history:two_files_one_call', 'history:same_args_second_call']
 EXHAUSTIVE = {'quick': True, 'thorough': True}
 
 
@@ -134,14 +134,22 @@ def run_table(case, acc, b2c):
     refs = [(f'chr{j + 1}', r.choice([b * r.randint(1, 12), b * r.randint(1, 12) + r.randint(1, b), r.randint(20, 3000)]))
             for j in range(r.randint(1, 3))]
     cells = [f'LIB_{j}' for j in range(r.randint(1, 4))]
+    # history: several alignment files in one call, or the same args namespace used for a second call; the files name the same
+    # contigs with different lengths (two assemblies / a trimmed reference) and every read is judged by the length in its own file
+    history = r.choice(['one', 'one', 'two_files_one_call', 'same_args_second_call'])
+    refs_per_file = [refs]
+    if history != 'one':
+        refs_per_file.append([(nm, r.choice([ln, max(20, ln // 2), ln * 2, ln + b, max(20, ln - b)])) for nm, ln in refs])
     recs = []
+    recs_per_file = [[] for _ in refs_per_file]
     truth = {}
     multiples = 0
     rejected = 0
     n = r.randint(5, 60)
     for k in range(n):
         tid = r.randrange(len(refs))
-        clen = refs[tid][1]
+        fi = r.randrange(len(refs_per_file))
+        clen = refs_per_file[fi][tid][1]
         readlen = min(20, clen)
         mode = r.random()
         if mode < 0.35:
@@ -173,6 +181,7 @@ def run_table(case, acc, b2c):
         recs.append({'name': f'r{k}', 'flag': flag, 'tid': tid, 'pos': pos, 'mapq': 60, 'cigar': f'{readlen}M',
                      'seq': 'A' * readlen, 'qual': [30] * readlen, 'tags': tags,
                      'next_tid': tid if paired and not flag & 8 else -1, 'next_pos': pos if paired and not flag & 8 else -1})
+        recs_per_file[fi].append(recs[-1])
         if x % se == 0:
             multiples += 1
         for (st, en) in expected_bins(x, b, se):
@@ -191,15 +200,25 @@ def run_table(case, acc, b2c):
         calls.append((point, bin_size, sliding_increment, res))
         return res
     with Scratch('c10') as d:
-        bam = write_bam(os.path.join(d, 'in.bam'), refs, recs)
+        bams = [write_bam(os.path.join(d, f'in{fi}.bam'), rf, rc) for fi, (rf, rc) in enumerate(zip(refs_per_file, recs_per_file))]
         b2c.coordinate_to_bins = spy
         try:
             import io
             import contextlib
             with contextlib.redirect_stdout(io.StringIO()):
-                df = b2c.create_count_table(table_args(bam, b, s, keep, bintag, 'reference_name'), return_df=True)
+                args = table_args(bams[0], b, s, keep, bintag, 'reference_name')
+                if history == 'two_files_one_call':
+                    args.alignmentfiles = list(bams)
+                    df = b2c.create_count_table(args, return_df=True)
+                elif history == 'same_args_second_call':
+                    df = b2c.create_count_table(args, return_df=True)
+                    args.alignmentfiles = [bams[1]]
+                    df = df.add(b2c.create_count_table(args, return_df=True), fill_value=0)
+                else:
+                    df = b2c.create_count_table(args, return_df=True)
         finally:
             b2c.coordinate_to_bins = orig
+    acc.count('history:' + history)
     acc.evals += 1
     acc.count('hook:coordinate_to_bins_during_table', len(calls))
     for (x, bb, ss, res) in calls:
@@ -226,11 +245,11 @@ def run_table(case, acc, b2c):
         else:
             mech = 'table-mismatch'
         acc.violate(mech, f'count table differs in {len(diffs)} cells (total {gt} expected {et}); b={b} s={s} keep={keep} '
-                          f'binTag={bintag}; first {diffs[:3]}',
-                    {'b': b, 's': s, 'keepOverBounds': keep, 'binTag': bintag, 'refs': refs, 'diffs': [list(map(str, x)) for x in diffs[:10]],
+                          f'binTag={bintag} history={history}; first {diffs[:3]}',
+                    {'b': b, 's': s, 'keepOverBounds': keep, 'binTag': bintag, 'history': history, 'refs_per_file': refs_per_file, 'diffs': [list(map(str, x)) for x in diffs[:10]],
                      'reads': [(x['name'], refs[x['tid']][0], x['pos'], x['tags']) for x in recs][:80]})
     if multiples and rejected:
         acc.sigs.add(f"table/{case['seed']}/{case['i']}")
-    acc.sample = {'table': {'b': b, 's': s, 'keepOverBounds': keep, 'binTag': bintag, 'refs': refs, 'reads': n,
+    acc.sample = {'table': {'b': b, 's': s, 'keepOverBounds': keep, 'binTag': bintag, 'history': history, 'refs': refs, 'reads': n,
                             'sites_on_multiples': multiples, 'windows_over_bounds': rejected,
                             'table_total': gt, 'expected_total': et, 'coordinate_to_bins_calls': len(calls)}}
